@@ -17,7 +17,7 @@ EXTENDS Naturals, Sequences, FiniteSets, TLC, Json
 
 Kinds == {"token", "regex", "skip"}
 Named == {"priority", "callback", "ignore", "allow_greedy"}
-Items == {"skip", "extras", "error", "subA", "subB", "utf8", "lifetime", "type"}
+Items == {"skip", "extras", "error", "subA", "subB", "utf8", "lifetime", "ltnone", "type"}
 
 Injective(s) == \A i, j \in DOMAIN s : i # j => s[i] # s[j]
 Perms(S) == {s \in [1..Cardinality(S) -> S] : Injective(s)}
@@ -36,6 +36,7 @@ Toks(arg) == CASE arg = "lit"          -> <<"Lit">>
                [] arg = "subB"         -> <<"Ident", "Ident", "Eq", "Lit">>
                [] arg = "utf8"         -> <<"Ident", "Eq", "Ident">>
                [] arg = "lifetime"     -> <<"Ident", "Eq", "Other">>                  \* lifetime = 'a
+               [] arg = "ltnone"       -> <<"Ident", "Eq", "Ident">>                  \* lifetime = none
                [] arg = "type"         -> <<"Ident", "Ident", "Eq", "Other", "Other", "Ident">>   \* type T = &'a str
 
 RECURSIVE Stream(_)
@@ -88,7 +89,8 @@ AttrCasesFor(k, p) == {[t |-> "attr", kind |-> k, poscb |-> p, named |-> pc[1], 
                                   (q[2] = "none") = ~HasCb(p, q[1])}}
 AttrCases == UNION {AttrCasesFor(k, p) : k \in Kinds, p \in BOOLEAN}
 ItemCases == {[t |-> "items", kind |-> "logos", poscb |-> FALSE, named |-> s, cbv |-> "none"] :
-                s \in {q \in UNION {Perms(S) : S \in {T \in SUBSET Items : Cardinality(T) >= 2 /\ Cardinality(T) <= 5 /\ ("subB" \in T => "subA" \in T)}} :
+                s \in {q \in UNION {Perms(S) : S \in {T \in SUBSET Items : Cardinality(T) >= 2 /\ Cardinality(T) <= 5 /\ ("subB" \in T => "subA" \in T)
+                                                                   /\ ~({"lifetime", "ltnone"} \subseteq T)}} :
                          \A i, j \in DOMAIN q : (q[i] = "subA" /\ q[j] = "subB") => i < j}}
 
 Init == c \in AttrCases \cup ItemCases
